@@ -28,6 +28,7 @@ type Config struct {
 	StopAtFirst  bool   // stop a harness after the first violation per label
 	MaxViolPerLabel int
 	Thorough     bool
+	MaxPreemptions int // context bound of the cooperative scheduler
 }
 
 // Shared is the read-only state shared by all workers.
@@ -147,6 +148,7 @@ type interpreter struct {
 
 	curFr *frame
 	syncTab *syncTables
+	pendingGoroutinePanic string
 	onceInit map[*value]bool
 	inInit bool
 	race  *raceDetector
@@ -615,6 +617,14 @@ func (i *interpreter) runPath(it workItem) (newItems []workItem) {
 		}()
 		i.runHarness(ex.fn)
 	}()
+	if i.pendingGoroutinePanic != "" {
+		i.reportViolation("escaped-panic", "panic", i.pendingGoroutinePanic, nil)
+		i.pendingGoroutinePanic = ""
+	}
+	if i.sched != nil {
+		i.sched.killAll()
+		i.sched = nil
+	}
 	i.rollback()
 	i.journalOn = false
 
@@ -733,7 +743,17 @@ func (i *interpreter) modelNow() (*smt.Model, smt.Result) {
 // reportViolation records a counterexample for the current path; extra (may be nil) is the
 // additional constraint under which it occurs.
 func (i *interpreter) reportViolation(label, kind, msg string, extra *smt.Term) {
-	i.reportViolationK(label, kind, msg, extra, "")
+	// violations raised by the executor itself (escaped panic, deadlock, race): attribute them to
+	// a declared known-finding class whose condition holds on this path
+	known := ""
+	for _, k := range i.pendingKnown {
+		parts := strings.SplitN(k.id, "\x00", 2)
+		if (parts[1] == label || parts[1] == "*") && k.cond.IsConst() && k.cond.Val == 1 {
+			known = parts[0]
+			break
+		}
+	}
+	i.reportViolationK(label, kind, msg, extra, known)
 }
 
 func (i *interpreter) reportViolationK(label, kind, msg string, extra *smt.Term, known string) {
